@@ -271,7 +271,54 @@ func vScalarHole(tag string) []byte {
 	case 4:
 		return []byte("null")
 	default: // string of one content byte
-		return []byte{'"', zzverif.OneOf(tag+"s", "ab1./"), '"'}
+		return []byte{'"', zzverif.OneOf(tag+"s", "ab1./\x1f\x7f"), '"'} // incl. the last control character and DEL
+	}
+}
+
+// VerifC17_AnnotatedRules: `[ V1 , V2 ]` - optionally with a dangling comma -
+// with nothing, a line break, an inline annotation or a block annotation in
+// every gap: accepted iff the same text with the annotations replaced by
+// blanks is a well-formed list of distinct scalars (annotations never change
+// what the rule means, and never make a malformed list acceptable).
+func VerifC17_AnnotatedRules() {
+	zzverif.Expect("accepted", "rejected")
+	gap := func(tag string) (string, string) {
+		switch zzverif.IntRange(tag, 0, 3) {
+		case 0:
+			return "", ""
+		case 1:
+			return "\n", "\n"
+		case 2:
+			return " // c\n", "      \n"
+		default:
+			return " /* c */ ", "         "
+		}
+	}
+	v1 := []byte{zzverif.Digit("v1")}
+	v2 := []byte{'"', zzverif.OneOf("v2", "ab1"), '"'}
+	var text, plain []byte
+	add := func(t, p string) { text = append(text, t...); plain = append(plain, p...) }
+	add("[", "[")
+	add(gap("g0"))
+	add(string(v1), string(v1))
+	add(gap("g1"))
+	add(",", ",")
+	add(gap("g2"))
+	add(string(v2), string(v2))
+	add(gap("g3"))
+	if zzverif.Bool("danglingComma") {
+		add(",", ",")
+		add(gap("g4"))
+	}
+	add("]", "]")
+	add(gap("g5"))
+	_, wellFormed := vParseEnum(plain)
+	err := New("e", text).Check()
+	zzverif.Assert((err == nil) == wellFormed, "an annotated rule is accepted iff the list without its annotations is well formed")
+	if err == nil {
+		zzverif.Reach("accepted")
+	} else {
+		zzverif.Reach("rejected")
 	}
 }
 
